@@ -5,7 +5,7 @@ CONSTANTS
   Templates = {"o23", "jmp", "jcc", "ret"}
   Layouts = {"one", "split1", "tail", "head"}
   FnTables = {"present"}
-  Names = {"fa", "fab", "xfa", "main"}
+  Names = {"fa", "fab", "xfa"}
   BothOrders = FALSE
   EntModes = {"first", "all"}
   EpChoices = {0, 1, 2}
